@@ -347,3 +347,39 @@ func collectSkeletons(w *World) [][2]any {
 	skelVerifyMode = false
 	return res
 }
+
+// syncStateResetSites: the methods of DB (non-test files of the root package) that assign the zero
+// value to db.syncState, sorted. The whole-history theorems treat Close / a new process / (since
+// a3c8cc9) ResetLocalState as the points after which verify runs with the sync state of a fresh
+// session; a site that disappears breaks the obligation sync_state_reset_sites_agree.
+func syncStateResetSites(w *World) []string {
+	var out []string
+	p := w.pkgs[""]
+	for _, fi := range p.funcs {
+		if fi.recvType != "DB" || fi.decl.Body == nil {
+			continue
+		}
+		found := false
+		ast.Inspect(fi.decl.Body, func(n ast.Node) bool {
+			as, ok := n.(*ast.AssignStmt)
+			if !ok {
+				return true
+			}
+			for i, l := range as.Lhs {
+				if exprText(l) != "db.syncState" || i >= len(as.Rhs) {
+					continue
+				}
+				if cl, ok := as.Rhs[i].(*ast.CompositeLit); ok && len(cl.Elts) == 0 && exprText(cl.Type) == "syncState" {
+					found = true
+				}
+			}
+			return true
+		})
+		if found {
+			out = append(out, fi.decl.Name.Name)
+		}
+	}
+	sort.Strings(out)
+	return out
+}
+
